@@ -18,6 +18,7 @@ Monitors
 from __future__ import annotations
 
 import random
+from collections.abc import Sequence  # noqa: F401 - named by (string) annotations of classes defined in this module
 from typing import Any
 
 from hv.gen import annotations as A
@@ -376,7 +377,92 @@ class _NoDefault:
 NODEFAULT = _NoDefault()
 
 
+def same_named_subclass_probes(R: Recorder) -> None:
+    """a class that refers to itself by name in a string annotation (the only way a class defined in a function body can), extended by a
+    subclass that carries the SAME name (`class User(core.User)` of an extended model): the inherited annotation still names the base"""
+    from haiway import State
+
+    def base_model() -> Any:
+        class User(State):
+            name: str
+            friend: "User | None" = None
+            friends: Sequence["User"] = ()
+
+        return User
+
+    Base = base_model()
+
+    def extended_model() -> Any:
+        class User(Base):  # type: ignore[misc, valid-type]
+            extra: int = 0
+
+        return User
+
+    Ext = extended_model()
+
+    class Other(State):
+        name: str
+
+    b, e = Base(name="b"), Ext(name="e")
+    probes: list[tuple[str, Any, dict[str, Any], bool]] = [
+        ("base(friend=base)", Base, {"name": "a", "friend": b}, True), ("base(friend=extended)", Base, {"name": "a", "friend": e}, True), ("base(friend=other)", Base, {"name": "a", "friend": Other(name="o")}, False),
+        ("extended(friend=base)", Ext, {"name": "a", "friend": b}, True), ("extended(friend=extended)", Ext, {"name": "a", "friend": e}, True), ("extended(friend=other)", Ext, {"name": "a", "friend": Other(name="o")}, False),
+        ("extended(friends=[base, extended])", Ext, {"name": "a", "friends": [b, e]}, True), ("extended(friends=[other])", Ext, {"name": "a", "friends": [Other(name="o")]}, False), ("extended(friend=None)", Ext, {"name": "a", "friend": None}, True),
+    ]
+    for label, cls, kwargs, conforms in probes:
+        case = {"same_named_subclass": label}
+        try:
+            inst = cls(**kwargs)
+            status: tuple[str, Any] = ("ok", inst)
+        except Exception as exc:  # noqa: BLE001
+            status = ("raised", exc)
+        R.case(case, nontrivial=True)
+        R.count("same_named_subclass_probes")
+        where = {"top": "state", "at": "string-self-reference", "origin": "same-named-subclass"}
+        if conforms:
+            R.monitor("accepts-conforming", status[0] == "ok", where={**where, "kind": "rejected-conforming", "error": type(status[1]).__name__ if status[0] != "ok" else None},
+                      detail=f"{label}: the annotation `\"User | None\"` / `Sequence[\"User\"]` is declared in the base class User and names that class; the value conforms but construction raised {status[1]!r}", case=case)
+            if status[0] == "ok":
+                stored = {k: getattr(status[1], k) for k in kwargs}
+                same = all((tuple(v) if isinstance(v, list) else v) == stored[k] for k, v in kwargs.items())
+                R.monitor("stored-faithfully", same, where={**where, "kind": "stored-differs"}, detail=f"{label}: supplied {kwargs!r}, stored {stored!r}", case=case)
+        else:
+            R.monitor("rejects-violating", status[0] != "ok", where={**where, "kind": "accepted-violating"}, detail=f"{label}: accepted {kwargs!r}", case=case)
+
+
+def alias_spelling_probes(R: Recorder, N: Any) -> None:
+    """one type, two spellings of it as a type argument of a generic State: through a type alias (`Box[IntOrStr]`, `Box[Names]`,
+    `Box[MaybeSeq[int]]`) in the annotation, written out (`Box[int | str]`, ...) where the value is made - and the other way round"""
+    N.define("class AliasHolder(State):\n    a: Box[IntOrStr]\n    b: Box[Names]\n    c: Box[MaybeSeq[int]]\nclass PlainHolder(State):\n    a: Box[int | str]\n    b: Box[Sequence[str]]\n    c: Box[Sequence[int] | None]\n")
+    ns = N.ns
+    spelled = {"alias": {"a": "Box[IntOrStr](v=1)", "b": "Box[Names](v=('x',))", "c": "Box[MaybeSeq[int]](v=(1,))"}, "plain": {"a": "Box[int | str](v=1)", "b": "Box[Sequence[str]](v=('x',))", "c": "Box[Sequence[int] | None](v=(1,))"}}
+    base = {k: eval(v, ns) for k, v in spelled["alias"].items()}  # noqa: S307
+    for holder, own in (("AliasHolder", "alias"), ("PlainHolder", "plain")):
+        good = {k: eval(v, ns) for k, v in spelled[own].items()}  # noqa: S307
+        del base
+        base = good
+        for attr in ("a", "b", "c"):
+            for how in ("alias", "plain"):
+                value = eval(spelled[how][attr], ns)  # noqa: S307
+                case = {"alias_spelling": f"{holder}.{attr} <- {spelled[how][attr]}"}
+                try:
+                    inst = ns[holder](**{**good, attr: value})
+                    status: tuple[str, Any] = ("ok", inst)
+                except Exception as exc:  # noqa: BLE001
+                    status = ("raised", exc)
+                R.case(case, nontrivial=True)
+                R.count("type_arguments_spelled_through_aliases")
+                where = {"top": "generic:Box", "at": "generic:Box", "origin": "alias-spelling", "kind": "rejected-conforming", "error": type(status[1]).__name__ if status[0] != "ok" else None}
+                if how != own:
+                    where["type_argument_spelled_differently"] = True  # mechanism flag: same type, the other spelling (alias vs written out)
+                R.monitor("accepts-conforming", status[0] == "ok", where=where,
+                          detail=f"{case['alias_spelling']}: the annotation of {holder}.{attr} and the class of the value name the same type (one through a type alias, one written out); construction raised {status[1]!r}", case=case)
+
+
 def run(R: Recorder, tier: str, seed: int, shard: int, nshards: int) -> None:
+    if shard == 0:
+        same_named_subclass_probes(R)
+        alias_spelling_probes(R, Runner(R).N)
     depth = 1 if tier == "quick" else 2
     R.flags["exhaustive_core"] = f"every annotation term up to depth {depth} over the vocabulary x (conforming, single-position-broken, 70 hostile battery values, omitted)"
     rng = random.Random(f"C05/{seed}/{shard}")
@@ -413,6 +499,12 @@ def run(R: Recorder, tier: str, seed: int, shard: int, nshards: int) -> None:
 
 
 def replay(R: Recorder, case: dict[str, Any]) -> None:
+    if "same_named_subclass" in case:
+        same_named_subclass_probes(R)
+        return
+    if "alias_spelling" in case:
+        alias_spelling_probes(R, Runner(R).N)
+        return
     print("replay of C05 cases re-executes the recorded class source with the recorded value where it can be re-created:")
     print(case)
     run = Runner(R)
